@@ -21,6 +21,7 @@ func (runInfo *runInfoStruct) invokeExpr() {
 		runInfo.rv, runInfo.err = runInfo.env.GetValue(expr.Lit)
 		if runInfo.err != nil {
 			runInfo.err = newError(expr, runInfo.err)
+			runInfo.rv = nilValue
 		}
 
 	// LiteralExpr
